@@ -3,17 +3,40 @@ preprocessed map in the gradual constructor and the one-shot calculation)."""
 from props import C07
 
 EXPLANATION = (
-    "Decides one necessary clause only: for each of the four modes the gradual constructor "
+    "Decides two necessary clauses only. R1: for each of the four modes the gradual constructor "
     "(IGameMode::gradual_difficulty) and the one-shot calculation (IGameMode::difficulty) start from the same "
     "map — both use their map parameter solely as receiver of convert_ref(own mode, difficulty.get_mods()) and "
     "both invoke the same set of &mut Beatmap preprocessors on the converted map under the same guards (followed "
     "through helpers). A gradual constructor that forgets a preprocessor passes the suite (its tests use no mods) "
-    "and breaks the property for every play with that mod. Equality of the values per prefix (nth arithmetic, "
+    "and breaks the property for every play with that mod. R2: the set of Difficulty::get_* settings reachable from the "
+    "one-shot calculation equals the set reachable from the gradual calculator's methods (passed_objects aside): a setting "
+    "consulted by only one side (e.g. the clock rate) makes the two disagree for every non-default value. Equality of the values per prefix (nth arithmetic, "
     "count deltas) is numeric and NOT decided.")
 
 
 def run(ctx):
     F = ctx.facts('default')
     C07.r2_r4(ctx, F, r2='C02-R1a', r4='C02-R1b', methods=['difficulty', 'gradual_difficulty'])
+    # ---- R2: both paths consult the same Difficulty settings
+    import entries
+    from common import MODES, CAP
+    for mode in MODES:
+        one = entries.difficulty_getters(F, ['%s::difficulty::difficulty' % mode])
+        gadt = '%s::difficulty::gradual::%sGradualDifficulty' % (mode, CAP[mode])
+        groots = [f.path for f in F.fns if f.self_adt == gadt]
+        grad = entries.difficulty_getters(F, groots)
+        a = set(one) - {'get_passed_objects'}
+        b = set(grad) - {'get_passed_objects'}
+        if not groots or not one:
+            ctx.violation('C02-R2', 'anchor-missing:' + mode, 'one-shot / gradual entry of %s not found' % mode)
+            continue
+        for g in sorted(a - b):
+            ctx.violation('C02-R2', '%s:-%s' % (mode, g), 'the one-shot %s difficulty consults Difficulty::%s (in %s) but no method of %s does: that setting '
+                          'influences the one-shot result and not the gradual one' % (mode, g, sorted(set(one[g]))[:2], gadt.split('::')[-1]))
+        for g in sorted(b - a):
+            ctx.violation('C02-R2', '%s:+%s' % (mode, g), '%s consults Difficulty::%s (in %s) but the one-shot calculation never does' % (
+                gadt.split('::')[-1], g, sorted(set(grad[g]))[:2]))
+        if a == b:
+            ctx.ok('C02-R2', mode + ':settings', 'one-shot and gradual %s paths consult the same Difficulty settings: %s (passed_objects aside)' % (mode, sorted(a)))
     ctx.not_decided('equality of the i-th gradual value with the one-shot value for passed_objects(i); number of values; '
                     'final value equals full calculation (arithmetic over runtime values)')
